@@ -124,7 +124,7 @@ def run_case(rng, idx, tier):
                                  name, how, i, hist, what, e)})
 
         frames = [Texp[:3, :3]]
-        for d in gen.rand_dirs(rng, 6, frames):
+        for d in gen.mesh_vertex_dirs(espec)[:1] + gen.rand_dirs(rng, 6, frames):
             if kind == "mesh":
                 cmp("support_function(projection)", lambda c, d=d: np.array([float(np.dot(c.support_function(d), d)) / np.linalg.norm(d)]))
             else:
